@@ -53,7 +53,7 @@ commonName = supplied
 basicConstraints = CA:FALSE
 keyUsage = digitalSignature, keyEncipherment
 extendedKeyUsage = serverAuth
-subjectAltName = DNS:{san}
+subjectAltName = DNS:{san}{", IP:127.0.0.1" if san == "localhost" else ""}
 """)
             cmd = ["openssl", "ca", "-batch", "-config", cnf, "-cert", o(f"{ca}.pem"), "-keyfile", o(f"{ca}.key"), "-in", o(f"{name}.csr"),
                    "-out", o(f"{name}.pem"), "-extensions", "leaf_ext", "-notext"]
@@ -75,7 +75,7 @@ subjectAltName = DNS:{san}
     leaf("justexpired", "ca1", "localhost", startdate=fmt(now - datetime.timedelta(days=1)), enddate=fmt(now - datetime.timedelta(seconds=45)))
     # self-signed leaf
     sh(["openssl", "req", "-x509", "-newkey", "rsa:2048", "-nodes", "-keyout", o("selfsigned.key"), "-out", o("selfsigned.pem"), "-days", "3650",
-        "-subj", "/CN=localhost", "-addext", "subjectAltName=DNS:localhost", "-addext", "basicConstraints=CA:FALSE"])
+        "-subj", "/CN=localhost", "-addext", "subjectAltName=DNS:localhost,IP:127.0.0.1", "-addext", "basicConstraints=CA:FALSE"])
     # a tiny Ed25519 root (DER < 256 bytes, so its outer SEQUENCE uses the short 0x30 0x81 length form) and a leaf under it
     mincnf = o("ca4.cnf")
     open(mincnf, "w").write("""[req]
@@ -101,7 +101,7 @@ authorityKeyIdentifier = none
     assert os.path.getsize(o("ca4.der")) < 256, os.path.getsize(o("ca4.der"))
     sh(["openssl", "req", "-newkey", "ed25519", "-nodes", "-keyout", o("valided.key"), "-out", o("valided.csr"), "-subj", "/CN=localhost"])
     ext = o("valided.ext")
-    open(ext, "w").write("basicConstraints=CA:FALSE\nkeyUsage=digitalSignature\nextendedKeyUsage=serverAuth\nsubjectAltName=DNS:localhost\n")
+    open(ext, "w").write("basicConstraints=CA:FALSE\nkeyUsage=digitalSignature\nextendedKeyUsage=serverAuth\nsubjectAltName=DNS:localhost,IP:127.0.0.1\n")
     sh(["openssl", "x509", "-req", "-in", o("valided.csr"), "-CA", o("ca4.pem"), "-CAkey", o("ca4.key"), "-set_serial", "77", "-days", "3650", "-extfile", ext, "-out", o("valided.pem")])
     os.remove(o("valided.csr"))
     assert "OK" in sh(["openssl", "verify", "-CAfile", o("ca4.pem"), o("valided.pem")])
